@@ -1,5 +1,6 @@
 //! C17 — serial numbers and signature times obey RFC 1982.
 pub mod users;
+pub mod sign;
 use crate::engine::*;
 use crate::gen::*;
 use crate::refimpl::serial as rs;
@@ -12,7 +13,7 @@ use std::cmp::Ordering;
 use std::collections::BTreeMap;
 use std::str::FromStr;
 
-const DIFFS: [u32; 12] = [
+pub(crate) const DIFFS: [u32; 12] = [
     0, 1, 2, 0x7FFF_FFFE, 0x7FFF_FFFF, 0x8000_0000, 0x8000_0001, 0x8000_0002, 0xFFFF_FFFE, 0xFFFF_FFFF, 0x1234_5678, 0x4000_0000,
 ];
 const BASES: [u32; 10] = [0, 1, 2, 0x7FFF_FFFE, 0x7FFF_FFFF, 0x8000_0000, 0x8000_0001, 0xFFFF_FFFE, 0xFFFF_FFFF, 0x1234_5678];
@@ -47,10 +48,20 @@ fn check_pair(a: u32, b: u32, what: &str) -> CaseResult {
     // operators derived from partial_cmp
     vensure!((sa < sb) == (want == Some(Ordering::Less)), format!("{what}:lt"), "< wrong for {a},{b}");
     vensure!((sa > sb) == (want == Some(Ordering::Greater)), format!("{what}:gt"), "> wrong for {a},{b}");
+    // every comparison operator is the RFC 1982 relation: for values 2^31
+    // apart none of <, <=, >, >= holds
+    let le = matches!(want, Some(Ordering::Less) | Some(Ordering::Equal));
+    let ge = matches!(want, Some(Ordering::Greater) | Some(Ordering::Equal));
+    vensure!((sa <= sb) == le, format!("{what}:le"), "Serial({a}) <= Serial({b}) is {}, RFC 1982 order is {want:?}", sa <= sb);
+    vensure!((sa >= sb) == ge, format!("{what}:ge"), "Serial({a}) >= Serial({b}) is {}, RFC 1982 order is {want:?}", sa >= sb);
+    vensure!(PartialOrd::lt(&sa, &sb) == (want == Some(Ordering::Less)) && PartialOrd::gt(&sa, &sb) == (want == Some(Ordering::Greater)) && PartialOrd::le(&sa, &sb) == le && PartialOrd::ge(&sa, &sb) == ge, format!("{what}:operator-methods"), "PartialOrd::lt/le/gt/ge of Serial({a}), Serial({b}) disagree with RFC 1982 order {want:?}");
+    vensure!((sa != sb) == (a != b), format!("{what}:ne"), "Serial != wrong for {a},{b}");
     // Timestamp must agree with Serial
     let (ta, tb) = (Timestamp::from(a), Timestamp::from(b));
     vensure!(ta.partial_cmp(&tb) == want, format!("{what}:timestamp-cmp"), "Timestamp cmp({a},{b}) = {:?}, want {want:?}", ta.partial_cmp(&tb));
     vensure!(ta.into_int() == a && tb.into_int() == b, format!("{what}:timestamp-into_int"), "into_int");
+    vensure!((ta < tb) == (want == Some(Ordering::Less)) && (ta > tb) == (want == Some(Ordering::Greater)) && (ta <= tb) == le && (ta >= tb) == ge, format!("{what}:timestamp-operators"), "Timestamp operators for {a},{b} disagree with RFC 1982 order {want:?}: < {} <= {} > {} >= {}", ta < tb, ta <= tb, ta > tb, ta >= tb);
+    vensure!((ta == tb) == (a == b), format!("{what}:timestamp-eq"), "Timestamp eq wrong for {a},{b}");
     Ok(())
 }
 
@@ -237,6 +248,10 @@ fn extra(opts: &RunOpts, agg: &mut Agg) -> Result<(), (Violation, Vec<u8>)> {
                             let want = if d == 0 { Some(Ordering::Equal) } else if d < (1 << 31) { Some(Ordering::Less) } else if d == (1 << 31) { None } else { Some(Ordering::Greater) };
                             let back = Serial(b).partial_cmp(&Serial(a));
                             let mut bad = got != want || back != rev(want);
+                            let (sa, sb) = (Serial(a), Serial(b));
+                            if (sa <= sb) != matches!(want, Some(Ordering::Less) | Some(Ordering::Equal)) || (sa >= sb) != matches!(want, Some(Ordering::Greater) | Some(Ordering::Equal)) || (sa < sb) != (want == Some(Ordering::Less)) || (sa > sb) != (want == Some(Ordering::Greater)) {
+                                bad = true;
+                            }
                             // a + d > a for 1 <= d <= 2^31-1
                             if d >= 1 && d < (1 << 31) {
                                 let s = Serial(a).add(d as u32);
@@ -297,7 +312,7 @@ fn replay_extra(data: &[u8], _ctx: &mut Ctx) -> CaseResult {
 }
 
 fn health(c: &BTreeMap<String, u64>, _t: bool) -> Result<(), String> {
-    for k in ["near-2^31", "straddles-wrap", "date-beyond-2038", "bump-at-boundary", "ixfr-client-behind-across-wrap", "ixfr-client-level", "ixfr-client-ahead", "ixfr-answer-single-soa", "ixfr-answer-transfer", "users-bump-ran", "users-ixfr-ran", "systime-other-era-than-reference", "systime-order-checked", "systime-reference-in-era-0"] {
+    for k in ["near-2^31", "straddles-wrap", "date-beyond-2038", "bump-at-boundary", "ixfr-client-behind-across-wrap", "ixfr-client-level", "ixfr-client-ahead", "ixfr-answer-single-soa", "ixfr-answer-transfer", "users-bump-ran", "users-ixfr-ran", "systime-other-era-than-reference", "systime-order-checked", "systime-reference-in-era-0", "users-sign-ran", "sign-period-crosses-2^32", "sign-period-inverted", "sign-period-2^31-apart", "sign-period-valid"] {
         if c.get(k).copied().unwrap_or(0) < 50 {
             return Err(format!("class {k} starved"));
         }
@@ -316,6 +331,7 @@ pub fn prop() -> Prop {
             SubCheck::new("systime", run_systime, 200_000, 6_000_000, 40),
             SubCheck::new("users-bump", users::run_bump, 6_000, 150_000, 200),
             SubCheck::new("users-ixfr", users::run_ixfr, 8_000, 200_000, 300),
+            SubCheck::new("users-sign", sign::run_sign, 40_000, 1_000_000, 40),
             SubCheck::new("extra", replay_extra, 0, 0, 8),
         ],
         health: Some(health),
